@@ -209,12 +209,43 @@ fn nested_ref(ty: &syn::Type) -> bool {
     v.0
 }
 
+fn module_items<'a>(items: &'a [syn::Item], path: &[&str]) -> &'a [syn::Item] {
+    let mut cur = items;
+    for seg in path {
+        cur = cur
+            .iter()
+            .find_map(|i| match i {
+                syn::Item::Mod(m) if m.ident == seg => m.content.as_ref().map(|(_, it)| &it[..]),
+                _ => None,
+            })
+            .unwrap_or_else(|| panic!("simgen: no module {seg} in the generated bindings"));
+    }
+    cur
+}
+
+fn module_items_mut<'a>(items: &'a mut Vec<syn::Item>, path: &[&str]) -> &'a mut Vec<syn::Item> {
+    let mut cur = items;
+    for seg in path {
+        cur = cur
+            .iter_mut()
+            .find_map(|i| match i {
+                syn::Item::Mod(m) if m.ident == seg => m.content.as_mut().map(|(_, it)| it),
+                _ => None,
+            })
+            .unwrap_or_else(|| panic!("simgen: no module {seg} in the generated bindings"));
+    }
+    cur
+}
+
 /// Glue appended to a C08 variant: the forwarding guest and uniform entry points.
 /// `None`: this variant cannot be forwarded generically (see `nested_ref`).
-fn c08_glue(file: &syn::File) -> Option<proc_macro2::TokenStream> {
-    let items = &file.items;
-    let f = find_fn(items, "f").expect("generated import `f`");
-    let guest = find_trait(items, "Guest").expect("generated trait `Guest`");
+fn c08_glue(file: &syn::File, shape: bool) -> Option<proc_macro2::TokenStream> {
+    let root = &file.items;
+    let f = find_fn(root, "f").expect("generated import `f`");
+    // shape: the export is a static function of resource `r` in the exported interface `e`;
+    // the glue is then placed inside the generated module of `e` (type names resolve there)
+    let items = if shape { module_items(root, &["exports", "verif", "c08", "e"]) } else { &root[..] };
+    let guest = find_trait(items, if shape { "GuestR" } else { "Guest" }).expect("generated trait `Guest`");
     let g = guest
         .items
         .iter()
@@ -265,20 +296,30 @@ fn c08_glue(file: &syn::File) -> Option<proc_macro2::TokenStream> {
         (true, true) => quote!(self::f(#(#call_args),*).await),
         (true, false) => quote!(::wit_bindgen::block_on(self::f(#(#call_args),*))),
     };
+    let call = if shape {
+        // four modules up from `exports::verif::c08::e` is the root of the generated file
+        let s = call.to_string().replacen("self ::", "super :: super :: super :: super ::", 1);
+        s.parse::<proc_macro2::TokenStream>().expect("call parses")
+    } else {
+        call
+    };
+    let (cabi_name, post_name, cb_name) = if shape { ("_export_static_r_g_cabi", "__post_return_static_r_g", "__callback_static_r_g") } else { ("_export_g_cabi", "__post_return_g", "__callback_g") };
+    let (cabi_id, post_id, cb_id) = (format_ident!("{}", cabi_name), format_ident!("{}", post_name), format_ident!("{}", cb_name));
+    let implementor = if shape { quote!(VerifR) } else { quote!(VerifGuest) };
     let gsig = &g.sig;
-    let cabi = find_fn(items, "_export_g_cabi").expect("_export_g_cabi");
+    let cabi = find_fn(items, cabi_name).expect("generated export entry point");
     let mut conv = vec![];
     for (i, inp) in cabi.sig.inputs.iter().enumerate() {
         let syn::FnArg::Typed(pt) = inp else { panic!() };
         conv.push(from_bits_expr(&pt.ty, quote!(args[#i])));
     }
     let nargs = conv.len();
-    let call_cabi = quote!(_export_g_cabi::<VerifGuest>(#(#conv),*));
+    let call_cabi = quote!(#cabi_id::<#implementor>(#(#conv),*));
     let ret_conv = match &cabi.sig.output {
         syn::ReturnType::Default => quote!({ #call_cabi; 0u64 }),
         syn::ReturnType::Type(_, _) => quote!(::cmhost::abi::ToBits::to_bits64(#call_cabi)),
     };
-    let post = match find_fn(items, "__post_return_g") {
+    let post = match find_fn(items, post_name) {
         Some(p) => {
             let mut conv = vec![];
             for (i, inp) in p.sig.inputs.iter().enumerate() {
@@ -286,21 +327,36 @@ fn c08_glue(file: &syn::File) -> Option<proc_macro2::TokenStream> {
                 conv.push(from_bits_expr(&pt.ty, quote!(args[#i])));
             }
             quote!(pub const VERIF_POST_RETURN: Option<unsafe fn(&[u64])> = Some(verif_post_return);
-                   pub unsafe fn verif_post_return(args: &[u64]) { unsafe { __post_return_g::<VerifGuest>(#(#conv),*) } })
+                   pub unsafe fn verif_post_return(args: &[u64]) { unsafe { #post_id::<#implementor>(#(#conv),*) } })
         }
         None => quote!(pub const VERIF_POST_RETURN: Option<unsafe fn(&[u64])> = None;),
     };
-    let callback = match find_fn(items, "__callback_g") {
+    let callback = match find_fn(items, cb_name) {
         Some(_) => quote!(pub const VERIF_CALLBACK: Option<unsafe fn(u32, u32, u32) -> u32> = Some(verif_callback);
-                          pub unsafe fn verif_callback(a: u32, b: u32, c: u32) -> u32 { unsafe { __callback_g(a, b, c) } }),
+                          pub unsafe fn verif_callback(a: u32, b: u32, c: u32) -> u32 { unsafe { #cb_id(a, b, c) } }),
         None => quote!(pub const VERIF_CALLBACK: Option<unsafe fn(u32, u32, u32) -> u32> = None;),
     };
-    Some(quote! {
-        pub struct VerifGuest;
-        #[allow(unused_variables, clippy::all)]
-        impl Guest for VerifGuest {
-            #gsig { #(#reserve)* #call }
+    let impls = if shape {
+        quote! {
+            pub struct VerifGuest;
+            pub struct VerifR;
+            impl Guest for VerifGuest { type R = VerifR; }
+            #[allow(unused_variables, clippy::all)]
+            impl GuestR for VerifR {
+                #gsig { #(#reserve)* #call }
+            }
         }
+    } else {
+        quote! {
+            pub struct VerifGuest;
+            #[allow(unused_variables, clippy::all)]
+            impl Guest for VerifGuest {
+                #gsig { #(#reserve)* #call }
+            }
+        }
+    };
+    Some(quote! {
+        #impls
         pub const VERIF_NARGS: usize = #nargs;
         pub unsafe fn verif_call_g(args: &[u64]) -> u64 { unsafe { #ret_conv } }
         #post
@@ -314,13 +370,16 @@ fn main() {
     println!("cargo:rerun-if-changed=build.rs");
     // the exports of the C07 guest are looked up by symbol name at run time (dlsym)
     println!("cargo:rustc-link-arg-bins=-rdynamic");
-    let mut registry = String::from("pub struct Entry { pub sig: usize, pub name: &'static str, pub variant: &'static str, pub nargs: usize, pub call_g: unsafe fn(&[u64]) -> u64, pub post_return: Option<unsafe fn(&[u64])>, pub callback: Option<unsafe fn(u32, u32, u32) -> u32> }\n");
+    let mut registry = String::from("pub struct Entry { pub sig: usize, pub name: &'static str, pub variant: &'static str, pub nargs: usize, pub call_g: unsafe fn(&[u64]) -> u64, pub post_return: Option<unsafe fn(&[u64])>, pub callback: Option<unsafe fn(u32, u32, u32) -> u32>, pub res_shape: bool }\n");
     let mut mods = String::new();
     let mut entries = String::from("pub static ENTRIES: &[Entry] = &[\n");
+    // entries of the resource shape are listed after all others: the index of an entry is a recorded
+    // choice, and replay files written before the shape existed keep their meaning
+    let mut entries_shape = String::new();
     let mut total_rewritten = 0usize;
     for (i, (name, ..)) in C08_SIGS.iter().enumerate() {
-        let wit = c08_wit(i);
-        for (variant, flags) in C08_VARIANTS {
+        for (variant, flags, shape) in C08_VARIANTS {
+            let wit = c08_wit_shape(i, *shape);
             let src = generate(&wit, flags);
             let mut file = syn::parse_file(&src).unwrap_or_else(|e| panic!("generated code does not parse: {e}"));
             let mut rw = Rewriter { rewritten: vec![], unmatched_shims: 0 };
@@ -330,20 +389,26 @@ fn main() {
                 panic!("simgen: the shape of the generated native import shims changed ({} rewritten, {} unmatched, {} still dead) in signature {name}/{variant}; the harness needs to be adapted", rw.rewritten.len(), rw.unmatched_shims, left);
             }
             total_rewritten += rw.rewritten.len();
-            let Some(glue) = c08_glue(&file) else {
+            let Some(glue) = c08_glue(&file, *shape) else {
                 println!("cargo:warning=simgen: {name}/{variant} skipped (nested borrowed import parameters)");
                 continue;
             };
             let glue_file: syn::File = syn::parse2(glue).expect("glue parses");
-            file.items.extend(glue_file.items);
+            if *shape {
+                module_items_mut(&mut file.items, &["exports", "verif", "c08", "e"]).extend(glue_file.items);
+            } else {
+                file.items.extend(glue_file.items);
+            }
+            let at = if *shape { "::exports::verif::c08::e" } else { "" };
             file.attrs.clear();
             let text = prettyplease::unparse(&file);
             let modname = format!("sig{i}_{variant}");
             std::fs::write(out.join(format!("{modname}.rs")), text).unwrap();
             mods.push_str(&format!("#[allow(warnings, clippy::all)]\npub mod {modname} {{ include!(concat!(env!(\"OUT_DIR\"), \"/{modname}.rs\")); }}\n"));
-            entries.push_str(&format!("  Entry {{ sig: {i}, name: {name:?}, variant: {variant:?}, nargs: {modname}::VERIF_NARGS, call_g: {modname}::verif_call_g, post_return: {modname}::VERIF_POST_RETURN, callback: {modname}::VERIF_CALLBACK }},\n"));
+            (if *shape { &mut entries_shape } else { &mut entries }).push_str(&format!("  Entry {{ sig: {i}, name: {name:?}, variant: {variant:?}, nargs: {modname}{at}::VERIF_NARGS, call_g: {modname}{at}::verif_call_g, post_return: {modname}{at}::VERIF_POST_RETURN, callback: {modname}{at}::VERIF_CALLBACK, res_shape: {shape} }},\n"));
         }
     }
+    entries.push_str(&entries_shape);
     entries.push_str("];\n");
     // C07: one world, default (owning) mode; the guest is hand-written in src/c07.rs
     {
@@ -449,19 +514,6 @@ fn main() {
         // generator classifies an aliased resource (`exp2`, `exp3`) takes its method signatures
         // from the generated trait and forwards to generic user functions in src/c07.rs, so the
         // harness builds whatever handle type the generator chose.
-        fn module_items<'a>(items: &'a [syn::Item], path: &[&str]) -> &'a [syn::Item] {
-            let mut cur = items;
-            for seg in path {
-                cur = cur
-                    .iter()
-                    .find_map(|i| match i {
-                        syn::Item::Mod(m) if m.ident == seg => m.content.as_ref().map(|(_, it)| &it[..]),
-                        _ => None,
-                    })
-                    .unwrap_or_else(|| panic!("simgen: no module {seg} in the C07 bindings"));
-            }
-            cur
-        }
         let mut glue = vec![];
         for (iface, ns, pkg) in [("exp2", "verif", "c07"), ("exp3", "verif", "c07"), ("exp4", "other", "pkg")] {
             let items = module_items(&file.items, &["exports", ns, pkg, iface]);
